@@ -10,8 +10,8 @@ EXTENDS Speaker, SpeakerDom, Json
 
 CONSTANTS MaxSteps, WithPolicy, Warm, Chaos
 
-VARIABLES stalled, held, hist
-gvars == <<up, inr, loc, impPol, expPol, inrPol, expEff, stalled, held, hist>>
+VARIABLES stalled, held, gone, hist
+gvars == <<up, inr, loc, impPol, expPol, inrPol, expEff, stalled, held, gone, hist>>
 
 (* Warm: every neighbour is brought up first (the schedule starts with Up A, Up B, Up C), so that
    the random part is spent on route, policy and reset events *)
@@ -27,50 +27,58 @@ GInit == /\ IF Warm THEN /\ up = [p \in Peers |-> TRUE]
                          /\ expEff = [p \in Peers |-> "acc"]
                          /\ hist = UpSteps
                     ELSE PInit /\ hist = <<>>
-         /\ stalled = {} /\ held = {}
+         /\ stalled = {} /\ held = {} /\ gone = {}
 
 Log(e) == hist' = Append(hist, e)
 
-GUp(p)      == PUp(p) /\ p \notin held /\ Log([ev |-> "Up", p |-> p]) /\ UNCHANGED <<stalled, held>>
-GUpHold(p)  == ~WithPolicy /\ PUp(p) /\ held = {} /\ held' = {p} /\ Log([ev |-> "UpHold", p |-> p]) /\ UNCHANGED stalled
+GUp(p)      == PUp(p) /\ p \notin held /\ p \notin gone /\ Log([ev |-> "Up", p |-> p]) /\ UNCHANGED <<stalled, held, gone>>
+GUpHold(p)  == ~WithPolicy /\ p \notin gone /\ PUp(p) /\ held = {} /\ held' = {p} /\ Log([ev |-> "UpHold", p |-> p]) /\ UNCHANGED <<stalled, gone>>
 GRelease(p) == p \in held /\ held' = held \ {p} /\ Log([ev |-> "Release", p |-> p])
-               /\ UNCHANGED <<up, inr, loc, polvars, stalled>>
+               /\ UNCHANGED <<up, inr, loc, polvars, stalled, gone>>
 GDown(p)    == (~Warm \/ RandomElement(1..4) = 1) /\ PDown(p) /\ p \notin held /\ stalled' = stalled \ {p}
-               /\ Log([ev |-> "Down", p |-> p]) /\ UNCHANGED held
+               /\ Log([ev |-> "Down", p |-> p]) /\ UNCHANGED <<held, gone>>
 GAnn(p)     == /\ up[p] /\ p \notin held
                /\ LET x == RandomElement(Prefixes)
                       r == MkRoute(PInfo, p, RandomElement(IF PInfo[p].kind = "rs" THEN RsVarCodes ELSE VarCodes))
                   IN PAnn(p, x, r) /\ Log([ev |-> "Ann", p |-> p, x |-> x, r |-> r])
-               /\ UNCHANGED <<stalled, held>>
+               /\ UNCHANGED <<stalled, held, gone>>
 GWd(p)      == /\ up[p] /\ p \notin held
                /\ LET x == RandomElement(Prefixes)
                   IN PWd(p, x) /\ Log([ev |-> "Wd", p |-> p, x |-> x])
-               /\ UNCHANGED <<stalled, held>>
+               /\ UNCHANGED <<stalled, held, gone>>
 GApiAdd     == (\A p \in Peers : PInfo[p].kind # "rs") /\ LET x == IF WithPolicy THEN "x2" ELSE RandomElement(Prefixes)
                    r == MkLocal(RandomElement({0, 1}))
-               IN PApiAdd(x, r) /\ Log([ev |-> "ApiAdd", x |-> x, r |-> r]) /\ UNCHANGED <<stalled, held>>
+               IN PApiAdd(x, r) /\ Log([ev |-> "ApiAdd", x |-> x, r |-> r]) /\ UNCHANGED <<stalled, held, gone>>
 GApiDel     == LET x == RandomElement(Prefixes)
-               IN PApiDel(x) /\ Log([ev |-> "ApiDel", x |-> x]) /\ UNCHANGED <<stalled, held>>
+               IN PApiDel(x) /\ Log([ev |-> "ApiDel", x |-> x]) /\ UNCHANGED <<stalled, held, gone>>
 GStall(p)   == up[p] /\ p \notin stalled /\ p \notin held /\ stalled = {} /\ stalled' = {p}
-               /\ Log([ev |-> "Stall", p |-> p]) /\ UNCHANGED <<up, inr, loc, polvars, held>>
+               /\ Log([ev |-> "Stall", p |-> p]) /\ UNCHANGED <<up, inr, loc, polvars, held, gone>>
 GResume(p)  == p \in stalled /\ stalled' = stalled \ {p}
-               /\ Log([ev |-> "Resume", p |-> p]) /\ UNCHANGED <<up, inr, loc, polvars, held>>
+               /\ Log([ev |-> "Resume", p |-> p]) /\ UNCHANGED <<up, inr, loc, polvars, held, gone>>
+
+(* peer removal (also in the middle of a session) and re-addition *)
+GDelPeer(p) == /\ p \notin gone /\ p \notin held /\ ~WithPolicy /\ RandomElement(1..3) = 1
+               /\ (IF up[p] THEN PDown(p) ELSE UNCHANGED pvars)
+               /\ gone' = gone \cup {p} /\ stalled' = stalled \ {p}
+               /\ Log([ev |-> "DelPeer", p |-> p]) /\ UNCHANGED held
+GAddPeer(p) == /\ p \in gone /\ gone' = gone \ {p}
+               /\ Log([ev |-> "AddPeer", p |-> p]) /\ UNCHANGED <<up, inr, loc, polvars, stalled, held>>
 
 (* C15: policy changes and soft resets; a reset targets one neighbour or all of them *)
 Targets == {{p} : p \in Peers} \cup {Peers}
 TName(T) == IF T = Peers THEN "all" ELSE CHOOSE p \in T : TRUE
 GSetImp    == LET pol == RandomElement(Pols) IN
-                PSetImp(pol) /\ Log([ev |-> "SetImp", pol |-> pol]) /\ UNCHANGED <<stalled, held>>
+                PSetImp(pol) /\ Log([ev |-> "SetImp", pol |-> pol]) /\ UNCHANGED <<stalled, held, gone>>
 GSetExp    == LET pol == RandomElement(Pols) IN
-                PSetExp(pol) /\ Log([ev |-> "SetExp", pol |-> pol]) /\ UNCHANGED <<stalled, held>>
+                PSetExp(pol) /\ Log([ev |-> "SetExp", pol |-> pol]) /\ UNCHANGED <<stalled, held, gone>>
 GResetIn   == LET T == RandomElement(Targets) IN
-                PResetIn(T) /\ Log([ev |-> "ResetIn", p |-> TName(T)]) /\ UNCHANGED <<stalled, held>>
+                PResetIn(T) /\ Log([ev |-> "ResetIn", p |-> TName(T)]) /\ UNCHANGED <<stalled, held, gone>>
 GResetOut  == LET T == RandomElement(Targets) IN
-                PResetOut(T) /\ Log([ev |-> "ResetOut", p |-> TName(T)]) /\ UNCHANGED <<stalled, held>>
+                PResetOut(T) /\ Log([ev |-> "ResetOut", p |-> TName(T)]) /\ UNCHANGED <<stalled, held, gone>>
 GResetBoth == LET T == RandomElement(Targets) IN
-                PResetBoth(T) /\ Log([ev |-> "ResetBoth", p |-> TName(T)]) /\ UNCHANGED <<stalled, held>>
+                PResetBoth(T) /\ Log([ev |-> "ResetBoth", p |-> TName(T)]) /\ UNCHANGED <<stalled, held, gone>>
 GRefresh(p) == up[p] /\ p \notin held /\ PResetOut({p}) /\ Log([ev |-> "Refresh", p |-> p])
-               /\ UNCHANGED <<stalled, held>>
+               /\ UNCHANGED <<stalled, held, gone>>
 GPolicy == WithPolicy /\ held = {} /\
            (GSetImp \/ GSetExp \/ GResetIn \/ GResetOut \/ GResetBoth \/ \E p \in Peers : GRefresh(p))
 
@@ -79,11 +87,12 @@ GPolicy == WithPolicy /\ held = {} /\
 OpKinds == {"ListPath", "ListPeer", "WatchStart", "WatchStop", "Disable", "Enable", "DelPeer", "AddPeer"}
 GOp == Chaos /\ LET k == RandomElement(OpKinds)
                     q == RandomElement(Peers)
-                IN Log([ev |-> "Op", k |-> k, p |-> q]) /\ UNCHANGED <<up, inr, loc, polvars, stalled, held>>
+                IN Log([ev |-> "Op", k |-> k, p |-> q]) /\ UNCHANGED <<up, inr, loc, polvars, stalled, held, gone>>
 
 GNext == /\ Len(hist) < MaxSteps
          /\ \/ \E p \in Peers : GUp(p) \/ GUpHold(p) \/ GRelease(p) \/ GDown(p)
                                 \/ GAnn(p) \/ GAnn(p) \/ GWd(p) \/ GStall(p) \/ GResume(p)
+                                \/ GDelPeer(p) \/ GAddPeer(p)
             \/ GApiAdd \/ GApiDel
             \/ GPolicy \/ GPolicy
             \/ GOp \/ GOp
